@@ -25,7 +25,7 @@ vars == <<cfg, res, phase>>
 XDims == OrderedSubsetsUpTo(BaseSet, MaxDims) \ {<<>>}
 
 \* selectors available for a letter; reads never use lists
-ListsOf(l) == {<<2, 1>>, <<1>>} \cup (IF LenOfBase(l) = 3 THEN {<<3, 1>>} ELSE {})
+ListsOf(l) == {<<2, 1>>, <<1>>} \cup (IF LenOfBase(l) = 3 THEN {<<3, 1>>} ELSE {}) \cup (IF LenOfBase(l) = 5 THEN {<<2, 4, 3, 5>>, <<5, 1, 2>>} ELSE {})
 SelectorsOf(l, withLists) ==
          {One(i) : i \in ItemSet(l)}
     \cup {SubSel(d) : d \in SubsOf(l)}
@@ -73,7 +73,23 @@ ErrKinds == {"unknown_single", "unknown_in_tuple", "unknown_in_dict", "unknown_i
 ErrConfigs == UNION {{[op |-> "geterr", xd |-> xd, key |-> [m \in {l} |-> [kind |-> e]], rhs |-> "none", yd |-> <<>>] :
                          e \in ErrKinds, l \in Range(xd)} : xd \in XDims}
 
+\* KIND PATTERNS on arrays of up to five dimensions: for every dimension none / one fixed item / the multi-item
+\* subset (/ a list for writes), in the canonical storage order, its reversal and a rotation.  This is the index
+\* vector space of spec/ArrayStore.tla, executed on the real arrays.
+PatOrders == LET c == MCCanon  n == Len(MCCanon) IN
+             {c, [i \in 1..n |-> c[n + 1 - i]], [i \in 1..n |-> c[(i % n) + 1]]}
+PatSel(l, writes) == {One(2), SubSel(SubMulti[l])} \cup (IF writes THEN {ListSel(<<2, 1>>)} ELSE {})
+RECURSIVE PatKeys(_, _)
+PatKeys(ls, writes) ==
+    IF ls = <<>> THEN {[m \in {} |-> 0]}
+    ELSE LET rest == PatKeys(Tail(ls), writes)
+         IN  rest \cup {ExtendKey(k, Head(ls), sel) : k \in rest, sel \in PatSel(Head(ls), writes)}
+GetPatConfigs == UNION {{[op |-> "get", xd |-> xd, key |-> k, rhs |-> "none", yd |-> <<>>] : k \in PatKeys(xd, FALSE)} : xd \in PatOrders}
+SetPatConfigs == UNION {{[op |-> "set", xd |-> xd, key |-> k, rhs |-> "num", yd |-> <<>>] : k \in PatKeys(xd, TRUE)} : xd \in {MCCanon}}
+
 Configs == CASE Family = "get"    -> GetConfigs
+             [] Family = "getpat" -> GetPatConfigs
+             [] Family = "setpat" -> SetPatConfigs
              [] Family = "geterr" -> ErrConfigs
              [] Family = "setnum" -> SetNumConfigs \cup SetNdConfigs
              [] Family = "setarr" -> SetArrConfigs
